@@ -139,6 +139,12 @@ func profiles() map[string]Profile {
 	p.KeyOnlyReads = true
 	m["C19"] = p
 
+	pl := p
+	pl.Name = "C19L" // Model L: lookups and evictions with exact answers, file reads and cache transitions
+	pl.KeyOnlyReads = false
+	pl.CacheOps, pl.Set, pl.Del, pl.Evict, pl.Visit, pl.Fill = 30, 25, 6, 4, 4, 1
+	m["C19L"] = pl
+
 	pn := base
 	pn.Name = "C12n" // no load-time comparator callback: SetCollection on an existing name must install the comparator (C12) and visits must then run under it (C06)
 	pn.NoCmpCallback, pn.Revert, pn.SnapRevert, pn.Copy = true, 0, 0, 0
@@ -272,6 +278,7 @@ func cmdRun(args []string) {
 	fs := flag.NewFlagSet("run", flag.ExitOnError)
 	in := fs.String("in", "", "ops file")
 	out := fs.String("out", "", "observations file")
+	rw := fs.String("rw", "", "file for the operation lines as the model must see them (lines carrying what only the implementation knows)")
 	fs.Parse(args)
 	f, err := os.Open(*in)
 	if err != nil {
@@ -289,13 +296,30 @@ func cmdRun(args []string) {
 	sc := bufio.NewScanner(f)
 	sc.Buffer(make([]byte, 1<<20), 1<<26)
 	w := newWorld()
+	var rwb *bufio.Writer
+	if *rw != "" {
+		rf, _ := os.Create(*rw)
+		defer rf.Close()
+		rwb = bufio.NewWriterSize(rf, 1<<20)
+		defer rwb.Flush()
+	}
 	for sc.Scan() {
 		l := strings.TrimSpace(sc.Text())
 		if l == "" || strings.HasPrefix(l, "#") {
 			fmt.Fprintln(bw, "")
+			if rwb != nil {
+				fmt.Fprintln(rwb, l)
+			}
 			continue
 		}
 		fmt.Fprintln(bw, w.Exec(l))
+		if rwb != nil {
+			if w.rewrite != "" {
+				l = w.rewrite
+			}
+			fmt.Fprintln(rwb, l)
+		}
+		w.rewrite = ""
 	}
 }
 
